@@ -13,13 +13,15 @@ META = {
                    'date-time classes ask it, getUtcOffset(epochSeconds), by two model zones (one with a DST period, one fixed).  Instants '
                    'around both transitions, around the epoch, at day boundaries on both sides of it and two billion seconds either way; ten '
                    'fixed offsets (thorough: every quarter hour of +-16 h).  The two forEpochSeconds factories on instants around day boundaries '
-                   '(floor quotient).',
+                   '(floor quotient).  On top of that, with nothing abstracted: ZonedDateTime through TimeZone and the real processors on the model zones of '
+                   'acv/rules_C04c.py (both scopes), at the instants around every transition of 2004..2006, against the timeline of the interpreted reference (R6).',
     'decided': 'on every instant / offset / pair of the family: forEpochSeconds(e, x).toEpochSeconds() == e and the fields are the calendar '
                'reading of e + offset; the Unix variants (for / to, seconds and days, all classes) are the same values at e + 946684800; '
                'convertToTimeOffset / convertToTimeZone keep the instant; compareTo is the sign of the difference of the instants, also more '
                'than 2^31 s apart and for two date-times of one zone inside the repeated hour; ZonedDateTime::forEpochSeconds reads the zone at '
-               'the instant it converts',
-    'not_decided': 'instants and offsets outside the family; real zone data (the model zones stand for TimeZone at its interface)',
+               'the instant it converts; on the model zones, through the real processors: fields = UTC fields shifted by the reference\'s offset, '
+               'toEpochSeconds() gives the instant back, the Unix variant is 946684800 more, convertToTimeZone keeps the instant',
+    'not_decided': 'instants and offsets outside the families; zones unlike the model zones',
     'assumptions': ['clang 14 parser', 'TimeZone is used by the date-time classes only through getUtcOffset() / isError() / operator=='],
 }
 
@@ -177,6 +179,8 @@ def run(cfg):
     # R1..R4: the date-time classes interpreted through their real bodies against two model zones (acv/rules_C05b.py)
     from . import rules_C05b
     rules_C05b.roundtrip_eval(R, lib, ob)
+    from . import rules_C04c
+    rules_C04c.zoned_roundtrip_rule(R, cfg, lib, 'R6')
     # R5 floor division twins
     fa = lib.fn('ace_time::LocalDate::forEpochSeconds')
     fb = lib.fn('ace_time::LocalDateTime::forEpochSeconds')
